@@ -889,6 +889,10 @@ class _Builder:
         from .terms import BINOPS
 
         cur = self.ex(st.target, p)
+        if isinstance(st.op, ast.Add) and isinstance(st.target, ast.Name) and op(cur) == "new" and cur[1] == "list":
+            # in-place concatenation of a list the function allocated: xs.extend(ys)
+            p.events.append(self.E("expr", st.lineno, ("call", ("attr", cur, "extend"), (self.ex(st.value, p),), ())))
+            return [p]
         v = ("bin", BINOPS.get(type(st.op), "?"), cur, self.ex(st.value, p))
         self.assign(st.target, v, p, st.lineno)
         return [p]
@@ -989,12 +993,30 @@ class _Builder:
         b.events.append(self.E("guard", lineno, test, not pol))
         return then_fn([a]) + else_fn([b])
 
-    def _assigned_names(self, stmts: list[ast.stmt]) -> set[str]:
+    def _assigned_names(self, stmts: list[ast.stmt], env: dict | None = None) -> set[str]:
         out = set()
+        aug_only: dict[str, bool] = {}
         for s in stmts:
+            for n in ast.walk(s):
+                if isinstance(n, ast.AugAssign) and isinstance(n.op, ast.Add) and isinstance(n.target, ast.Name):
+                    aug_only.setdefault(n.target.id, True)
             for n in ast.walk(s):
                 if isinstance(n, ast.Name) and isinstance(n.ctx, ast.Store):
                     out.add(n.id)
+        if env:
+            plain = set()
+            for s in stmts:
+                for n in ast.walk(s):
+                    if isinstance(n, ast.AugAssign) and isinstance(n.op, ast.Add) and isinstance(n.target, ast.Name):
+                        continue
+                    for c in ast.iter_child_nodes(n):
+                        if isinstance(c, ast.Name) and isinstance(c.ctx, ast.Store) and not (isinstance(n, ast.AugAssign) and isinstance(n.op, ast.Add)):
+                            plain.add(c.id)
+            for name in list(aug_only):
+                # xs += ys on a list the function allocated is xs.extend(ys): the name keeps denoting the same list
+                v = env.get(name)
+                if name not in plain and op(v) == "new" and v[1] == "list":
+                    out.discard(name)
         return out
 
     def _gconst_display(self, t):
@@ -1051,7 +1073,7 @@ class _Builder:
             comp = it[2][0]
             ctgt, csrc, cifs = comp[3][0]
             oid = self.low.fresh()
-            assigned = self._assigned_names(st.body) | {x.id for x in ast.walk(st.target) if isinstance(x, ast.Name)}
+            assigned = self._assigned_names(st.body, p.env) | {x.id for x in ast.walk(st.target) if isinstance(x, ast.Name)}
 
             def run(env):
                 paths = [Path([], env, None)]
@@ -1093,7 +1115,7 @@ class _Builder:
                     q.out = None
             return paths
         loop_id = self.low.fresh()
-        assigned = self._assigned_names(st.body)
+        assigned = self._assigned_names(st.body, p.env)
         box = {}
 
         def run(env):
@@ -1115,7 +1137,7 @@ class _Builder:
 
     def s_While(self, st, p):
         loop_id = self.low.fresh()
-        assigned = self._assigned_names(st.body)
+        assigned = self._assigned_names(st.body, p.env)
         env = dict(p.env)
         for n in assigned:
             if n in env:
